@@ -1043,6 +1043,17 @@ double HSolver::ChargeOnConductor(int u, CBigLinProb &L)
 			Dx*=Re(kn);
 			Dy*=Im(kn);
 
+			// elements of the conformally mapped external region carry the
+			// same "warped" conductivity that AnalyzeProblem assembled them with
+			if ((ProblemType==AXISYMMETRIC) && labellist[meshele[i].lbl].IsExternal)
+			{
+				double r=(meshnode[n[0]].x+meshnode[n[1]].x+meshnode[n[2]].x)/3.;
+				double z=(meshnode[n[0]].y+meshnode[n[1]].y+meshnode[n[2]].y)/3. - extZo;
+				double kludge=(r*r+z*z)/(extRi*extRo);
+				Dx/=kludge;
+				Dy/=kludge;
+			}
+
 			Z+=a*(Dx*vx+Dy*vy);
 		}
 	}
